@@ -9,19 +9,19 @@ CLAIMED = {
          "Every Search / Compile+Search execution of an exhaustive selector-chain grid (all chains of <=3/4 selectors x 7 roots x 12 documents), of index and slice literals at the 8/16/32/64-bit boundaries over arrays of 1..300 elements in every position an index can take, of 65 words that are keywords or literals elsewhere used as field names in every identifier position, of every comparison operator between all pairs of 44 numbers at the 2^31/2^32/2^53/2^63/2^64/10^19 boundaries, and of seeded document-directed random core-language expressions is compared with an independent reference evaluator; held = no disagreement on any decided case explored.",
          "Trusts the reference model where it decides (calibrated on the whole compliance corpus, abstains where the spec is open); covers only the executions produced.", "§6 C01"),
  "C02": ("reference-model monitor over an exhaustive argument-type matrix, a boundary lattice and generated calls",
-         "Every builtin x every arity 0..max+1 x every argument vector over a 23-value pool (exhaustive to arity 3, arity 4 exhaustive in thorough), an exhaustive integer-parameter boundary lattice, seeded document-directed calls (incl. caller-scope expression references and expression-reference bodies that call builtins again), every per-element construct paired with every construct evaluated inside its body (19 x 32 re-entrant pairs), wide forms (variadic calls, multi-selects, lets, chains and nestings with 1..257 members), one wrong-typed element at the first/middle/last positions of arrays and argument lists of 1..65 members for every array/variadic builtin, and every numeric builtin over 44 boundary numbers (literal, string and document routes) are executed through Search and compared with independent reference builtins (value, or error category).",
+         "Every builtin x every arity 0..max+1 x every argument vector over a 23-value pool (exhaustive to arity 3, arity 4 exhaustive in thorough), an exhaustive integer-parameter boundary lattice, seeded document-directed calls (incl. caller-scope expression references and expression-reference bodies that call builtins again), every per-element construct paired with every construct evaluated inside its body (19 x 32 re-entrant pairs), wide forms (variadic calls, multi-selects, lets, chains and nestings with 1..257 members), one wrong-typed element at the first/middle/last positions of arrays and argument lists of 1..65 members for every array/variadic builtin, every numeric builtin over 44 boundary numbers (literal, string and document routes), and ~60 forms over inputs of 1000..100000 elements are executed through Search and compared with independent reference builtins (value, or error category).",
          "Trusts the reference builtins where they decide (abstentions listed in ref/DETERMINACY.md); huge pad widths are not executed (known finding on C03).", "§6 C02"),
  "C03": ("crash monitor: recovered-panic oracle + child-death attribution via a crash-surviving intent slot; thorough tier repeats the data workloads under the race detector (checkptr)",
          "Hostile expression bytes (exhaustive truncations of the corpus, random bytes/tokens, token mutants, 1 MiB flat inputs, 20 recursive constructs nested to 1e5/3e5 and 4e6) and hostile Go data (every numeric kind incl. NaN/Inf, odd json.Number texts, decimal specials, typed nils, foreign values, invalid UTF-8 in every argument position of every builtin and operator; an exhaustive start/stop/step lattice over the 64-bit limits on single-byte strings, multi-byte strings and arrays; failing expressions of every error category with 0..65537 characters of one encoded width) are driven through Search, Compile and Expression.Search in child processes; every returned error is formatted; panics and process deaths are violations.",
          "A death is attributed to the last intent record; address space capped at 4 GiB per child; wall-clock watchdog firings are 'not judged'. Known finding: pad widths beyond memory (known_findings.json).", "§6 C03"),
  "C04": ("reference-recogniser monitor over exhaustive whitespace-gap and single-token-edit neighbourhoods",
-         "Compile's verdict on every text is compared with two independent recognisers (STRICT must compile / LENIENT-rejected must fail with a syntax error, or with a static function fault when a call precedes the error); the texts are every token gap of a base set filled with 5 whitespace strings, the complete single-token-edit neighbourhood of that base set (45 token kinds), hand-written member/non-member lists, every text of <= 5/6 characters over the JSON-number alphabet as a JSON literal (alone, in an array, as a member, in a filter), ~125 foreign tokens (other languages' operators and keywords, look-alikes) inserted at token gaps, complete constructs in slots that do not admit them, generated members in hostile spellings and generated/corrupted JSON literal texts. A non-member that compiles is reported with what it evaluated to.",
+         "Compile's verdict on every text is compared with two independent recognisers (STRICT must compile / LENIENT-rejected must fail with a syntax error, or with a static function fault when a call precedes the error); the texts are every token gap of a base set filled with 5 whitespace strings, the complete single-token-edit neighbourhood of that base set (45 token kinds), hand-written member/non-member lists, every text of <= 5/6 characters over the JSON-number alphabet as a JSON literal (alone, in an array, as a member, in a filter), ~125 foreign tokens (other languages' operators and keywords, look-alikes) inserted at token gaps, complete constructs in slots that do not admit them, ~330 unusual code points (format characters, separators, C1 controls, noncharacters) in every literal kind and between tokens, long/wide/deep members up to 300000 repetitions or nesting 4000 (each also with a stray last token), generated members in hostile spellings and generated/corrupted JSON literal texts. A non-member that compiles is reported with what it evaluated to.",
          "Texts between STRICT and LENIENT (whitespace inside [*]/[]/[?, let/in as identifiers, >64-bit integers, lone surrogates, raw control characters in quoted identifiers, multi-select directly after a projection) are not judged.", "§6 C04"),
  "C05": ("reference-model monitor with exact rational arithmetic (big.Rat) and ulp bounds",
          "Every arithmetic execution (60x60 boundary pool x 12 operators exhaustive, seeded operands up to 34/40 digits across the decimal128 exponent range, cancelling pairs, sum/avg/abs/ceil/floor/to_number/comparison, and prefix ladders that feed one long number text prefix by prefix within one process) is compared with exact rational arithmetic: equal when the exact result has <= 34 significant digits, within one unit of the 34th digit otherwise, not-a-number error for division by zero/overflow, never an infinity or NaN value; operands travel as json.Number, literal and decimal128.",
          "// and % judged only for operands of equal sign; operands or partial sums that a decimal128 cannot hold exactly, results below 1e-6143 or with exponent 6145..6199 are not judged.", "§6 C05"),
  "C09": ("deterministic step clock from compiler coverage counters + allocation meter + step-budget sampler",
-         "Per call, the number of basic-block executions inside the library (coverage counters, atomic mode) and the bytes allocated are measured; magnitude families (cost at 1e3..2^63-1 vs cost at 20), scaling families (growth exponent <= 2.2 over n = 10..1e4/1e5) and random calls (<= 5000 steps per size unit) are judged on those counts, never on wall-clock time; a sampler ends a call that exceeds its step budget and the driver reports it.",
+         "Per call, the number of basic-block executions inside the library (coverage counters, atomic mode) and the bytes allocated are measured; magnitude families (cost at 1e3..2^63-1 vs cost at 20), scaling families (incl. operator chains with truthy and with falsy operands in both short-circuit directions; growth exponent <= 2.2 over n = 10..1e4/1e5) and random calls (<= 5000 steps per size unit) are judged on those counts, never on wall-clock time; a sampler ends a call that exceeds its step budget and the driver reports it.",
          "'Every call terminates' is decided as bounded progress under a step budget; time inside the standard library/decimal128 is only visible through allocation and the inconclusive-only wall-clock watchdog.", "§6 C09"),
  "C11": ("reference-model monitor on code points + UTF-8 validity invariant + metamorphic renaming relation",
          "Position/length/width/order results of every string operation are compared with a code-point model for every position in [-len-2, len+2] and extremes; every string of every result is checked for UTF-8 validity; renaming a-z to 2-/3-/4-byte letters in expression and data must rename the result identically (library against itself).",
@@ -30,7 +30,7 @@ CLAIMED = {
          "x[start:stop:step] for n in 0..7 over a 25x25x17 boundary lattice (incl. +-2^62, 2^63-1, -2^63) on arrays and on strings of mixed-width code points (exhaustive), seeded n <= 300 with random 64-bit parameters and the projection rule, slices nested inside other slices' projections / multi-selects / filters / expression references over 2-D and 3-D arrays, a 70000-element array and 70000-character strings with bounds around 2^15/2^16/2^17 in every slice position, compared with the specification's slice algorithm evaluated on big integers by two independent oracles.",
          "Integer literals beyond 64 bits are a grammar gap.", "§6 C12"),
  "C10": ("metamorphic monitor (implied parentheses) + reference-model monitor over all operator pairs/triples with distinguishing documents",
-         "For every ordered pair and (thorough) triple of the 18 binary operator spellings, with and without unary prefixes, documents are searched on which the specified grouping differs from every other grouping; on those the library's result for the bare chain must equal its result for the chain with the implied parentheses written out and the model's value, and every explicitly parenthesised alternative must match the model; a literals stream runs chains over fields and literal numbers at the machine-width boundaries against the model, against the chain with implied parentheses and against the same chain with the literals moved into the document.",
+         "For every ordered pair and (thorough) triple of the 18 binary operator spellings, with and without unary prefixes, documents are searched on which the specified grouping differs from every other grouping; on those the library's result for the bare chain must equal its result for the chain with the implied parentheses written out and the model's value, and every explicitly parenthesised alternative must match the model; a literals stream runs chains over fields and literal numbers at the machine-width boundaries against the model, against the chain with implied parentheses and against the same chain with the literals moved into the document; a paren-override stream evaluates x op (y op z) over rounding-sensitive operands (34-digit edge, overflow, Go floats) against the model and against the same computation with the group bound to a let variable.",
          "Chains for which no distinguishing document exists (e.g. + with -) cannot be decided by execution and are only counted; arithmetic on non-numbers and // % with mixed signs are not judged.", "§6 C10"),
  "C13": ("direct-oracle monitor using unique element ids (permutation, order, stability, extremes, input snapshot)",
          "Arrays of records carrying their original index are sorted/minimised by the library; the monitor reads permutation, non-decreasing order by exact numeric value / code point, stability of equal keys, extremality and membership straight off the ids, for lengths up to 5000 with heavy duplication, numeric respellings and cross-plane strings, structured key orders, and key expressions that themselves sort or select (re-entering the sort routines); invalid arrays with the offending element at every position must raise invalid-type; the input is compared with a snapshot.",
@@ -45,16 +45,16 @@ CLAIMED = {
          "For documents of dyadic rationals (exact in every Go numeric kind) and 112 templates (incl. sorts and comparisons re-entered per element) plus random expressions, the outcome with all leaves as canonical json.Number is compared with the outcomes under 6 random assignments of Go kinds and json.Number spellings per case; a boundary stream does the same for large integral values (2^31..2^64, 2^100) in every kind that holds them exactly, alone and together with their neighbours v-1 and v+1; a precise stream does it for 17 numbers that need more precision than a float64 has (near-integers, 2^63-1 with a fraction part) in every carrier that holds them exactly, and against the exact model.",
          "The precondition (every intermediate value exactly representable in each kind) is enforced by construction: dyadic leaves, no general division.", "§6 C14"),
  "C16": ("direct-oracle monitor over exhaustive short strings through every literal syntax",
-         "Every string of length <= 3/4 over a 24-symbol hostile alphabet, a boundary set of code points and seeded long strings are written as raw strings, JSON literals (4 encodings) and quoted identifiers (as field and as multi-select key) and must decode to themselves, each preceded in the same process by malformed neighbours (bad escape after a valid prefix, unterminated literal); ladders of 20-70 keys/strings that are prefixes of one another evaluated in sequence and inside one expression; generated JSON values in random layouts between backticks must evaluate to themselves with numbers at full precision.",
+         "Every string of length <= 3/4 over a 27-symbol hostile alphabet (incl. LF, CR, NUL), a boundary set of code points and seeded long strings are written as raw strings, JSON literals (4 encodings) and quoted identifiers (as field and as multi-select key) and must decode to themselves, each preceded in the same process by malformed neighbours (bad escape after a valid prefix, unterminated literal); ladders of 20-70 keys/strings that are prefixes of one another evaluated in sequence and inside one expression; generated JSON values in random layouts between backticks must evaluate to themselves with numbers at full precision.",
          "The encoders are written from the grammar by the harness; the generator knows each expected value by construction.", "§6 C16"),
  "C18": ("domain-walk invariant + metamorphic re-query monitor, library against itself",
-         "Every result of value-constructing expressions is walked for non-JSON dynamic types, typed nils and non-finite numbers, serialised and decoded (views must agree), and re-queried: Search(e2, r1) and Search(e2, JSON round trip of r1) must equal Search('(e1) | e2', doc) and Search('e1 | e2', doc) for e2 from a 73-expression panel; a literal-results stream does the same for JSON literals in random legal layouts (white space inside the backticks); a null-elements stream does the same for arrays with leading nulls built by projections, filters, slices and functions (map, zip, reverse, not_null...).",
+         "Every result of value-constructing expressions is walked for non-JSON dynamic types, typed nils and non-finite numbers, serialised and decoded (views must agree), and re-queried: Search(e2, r1) and Search(e2, JSON round trip of r1) must equal Search('(e1) | e2', doc) and Search('e1 | e2', doc) for e2 from a 73-expression panel; a deep stream does it for documents nested 10..49990 levels; a literal-results stream does the same for JSON literals in random legal layouts (white space inside the backticks); a null-elements stream does the same for arrays with leading nulls built by projections, filters, slices and functions (map, zip, reverse, not_null...).",
          "to_string is excluded from the comparison after the JSON round trip (number spellings may differ); order-dependent enumerations are skipped when the model does not judge them.", "§6 C18"),
  "C19": ("reference-model monitor with unique-tag bindings",
          "66 canonical scope shapes (incl. null-valued inner bindings shadowing outer ones at every use site, wide lets of 6-10 bindings followed by narrow lets looking up unbound names) and seeded random nestings (depth 3-4, occasionally 5-10 bindings) bind unique tagged literals or the id of the current node, so each result identifies the binding and the context that were captured; every outcome is compared with the reference model's lexical environments, incl. undefined-variable errors only where the reference is evaluated.",
          "Trusts the reference model's environments (50 lines); calibrated on letexpr.json.", "§6 C19"),
  "C06": ("history monitor: per-call comparison with fresh evaluation + deep snapshots (capacity-tail canaries, container identities) + AST fingerprint hook",
-         "Histories of 3-8 Expression.Search calls over 2-4 documents with repeats are checked call by call: outcome = fresh one-shot Search on a deep copy, every document byte-for-byte as snapshotted (incl. sentinel values in the unused capacity of every slice), AST fingerprint unchanged (hook VerifASTFingerprint), every earlier result still equal to its snapshot; a directed list applies every ordering/reversing/merging builtin to every way of passing an array of the document or a literal without a copy; a foreign-containers stream checks that documents holding typed slices/maps, arrays, structs and pointers keep the same dynamic type and value at every position; an edited-in-place stream lets the caller edit its document between calls (same container identities) and requires Expression.Search and Search to agree with a fresh Search on a deep copy; MustCompile panics exactly when Compile fails.",
+         "Histories of 3-8 Expression.Search calls over 2-4 documents with repeats are checked call by call: outcome = fresh one-shot Search on a deep copy, every document byte-for-byte as snapshotted (incl. sentinel values in the unused capacity of every slice), AST fingerprint unchanged (hook VerifASTFingerprint), every earlier result still equal to its snapshot; a directed list applies every ordering/reversing/merging builtin to every way of passing an array of the document or a literal without a copy; a foreign-containers stream checks that documents holding typed slices/maps, arrays, structs and pointers keep the same dynamic type and value at every position; an edited-in-place stream lets the caller edit its document between calls (same container identities) and requires Expression.Search and Search to agree with a fresh Search on a deep copy; MustCompile panics exactly when Compile fails (also for members and non-members of 1 KB..1 MiB, where Search, Compile+Search and MustCompile+Search must agree).",
          "Aliasing between a result and its input is allowed; only writes are violations. Enumerating expressions are compared through the model (unordered-aware).", "§6 C06"),
  "C07": ("Go race detector (happens-before) over a barrier-released concurrent workload in fresh processes + per-call equality with the sequential outcome + AST fingerprint hook",
          "Worker built with -race; in each fresh process ~440 shared compiled expressions (generated ones plus a directed list applying every ordering/reversing/merging builtin to every way of passing a shared array or literal without a copy, large arrays with late type errors, integer arguments in every spelling and inexact arithmetic) and 20 shared read-only documents (four of them foreign Go values, never evaluated before the goroutines are released; every third expression is cold as well, so that process-wide lazy initialisation happens under concurrency) are hammered by 2-64 goroutines (GOMAXPROCS 2/4/16) mixing Search, Compile+Search and sharedExpression.Search; every race-detector report, every outcome differing from the precomputed sequential outcome, and every change to a shared Expression (fingerprint) or document (deep snapshot) is a violation.",
